@@ -356,26 +356,26 @@ func (parser *Parser) ParseExpression(depth int) (res Sexp, err error) {
 		exp, err := parser.ParseInfix(depth + 1)
 		return exp, err
 	case TokenQuote:
-		expr, err := parser.ParseExpression(depth + 1)
+		expr, err := parser.parsePrefixOperand(depth)
 		if err != nil {
 			return SexpNull, err
 		}
 		return MakeList([]Sexp{env.MakeSymbol("quote"), expr}), nil
 	case TokenCaret:
 		// '^' is now our syntax-quote symbol, not TokenBacktick, to allow go-style `string literals`.
-		expr, err := parser.ParseExpression(depth + 1)
+		expr, err := parser.parsePrefixOperand(depth)
 		if err != nil {
 			return SexpNull, err
 		}
 		return MakeList([]Sexp{env.MakeSymbol("syntaxQuote"), expr}), nil
 	case TokenTilde:
-		expr, err := parser.ParseExpression(depth + 1)
+		expr, err := parser.parsePrefixOperand(depth)
 		if err != nil {
 			return SexpNull, err
 		}
 		return MakeList([]Sexp{env.MakeSymbol("unquote"), expr}), nil
 	case TokenTildeAt:
-		expr, err := parser.ParseExpression(depth + 1)
+		expr, err := parser.parsePrefixOperand(depth)
 		if err != nil {
 			return SexpNull, err
 		}
@@ -467,7 +467,7 @@ func (parser *Parser) ParseExpression(depth int) (res Sexp, err error) {
 	case TokenSymbol:
 		if tok.str == "-" || tok.str == "+" {
 			// are we -Inf ?
-			tok2, err := parser.ParserPeekNextToken(0)
+			tok2, err := parser.peekAfterPrefix(depth)
 			if err != nil {
 				return SexpEnd, err
 			}
@@ -568,6 +568,23 @@ func (p *Parser) ParsingIter() iter.Seq[*ParserReply] {
 		const depth0 int = 0
 		for {
 			expr, err = p.ParseExpression(depth0)
+			if err == nil && expr == SexpEnd {
+				// out of tokens at top level: the last token may still be
+				// pending in the lexer, or the text may end inside a string,
+				// raw string or block comment.
+				produced, unfinished, ferr := p.lexer.finishTopLevel()
+				if ferr != nil {
+					err = ferr
+				} else if produced {
+					continue
+				} else if unfinished {
+					p.sendMe.Err = ErrMoreInputNeeded
+					if !yield(p.sendMe) {
+						return
+					}
+					continue
+				}
+			}
 			if err != nil || expr == SexpEnd {
 				p.sendMe.Err = err
 				yield(p.sendMe)
@@ -728,6 +745,42 @@ func (parser *Parser) ParseInfix(depth int) (Sexp, error) {
 
 func (parser *Parser) Linenum() int {
 	return parser.lexer.Linenum()
+}
+
+// peekAfterPrefix looks at the token that follows a prefix token (quote,
+// syntax-quote, unquote, a sign). Inside an open bracket (depth > 0) the text
+// is unfinished anyway, so we wait for more input like every other peek.
+// At top level the text may simply end here: flush what the lexer still
+// holds and report TokenEnd if nothing follows.
+func (parser *Parser) peekAfterPrefix(depth int) (tok Token, err error) {
+	if depth > 0 {
+		return parser.ParserPeekNextToken(0)
+	}
+	tok, err = parser.lexer.PeekNextToken(0)
+	if err != nil || tok.typ != TokenEnd {
+		return
+	}
+	produced, _, ferr := parser.lexer.finishTopLevel()
+	if ferr != nil {
+		return tok, ferr
+	}
+	if produced {
+		return parser.lexer.PeekNextToken(0)
+	}
+	return
+}
+
+// parsePrefixOperand parses the expression a prefix token applies to. The
+// operand is at the same bracket depth as the prefix token itself.
+func (parser *Parser) parsePrefixOperand(depth int) (Sexp, error) {
+	tok, err := parser.peekAfterPrefix(depth)
+	if err != nil {
+		return SexpNull, err
+	}
+	if tok.typ == TokenEnd {
+		return SexpNull, UnexpectedEnd
+	}
+	return parser.ParseExpression(depth)
 }
 
 func (parser *Parser) ParserPeekNextToken(extra int) (tok Token, err error) {
